@@ -416,7 +416,7 @@ META = dict(
 )
 
 MANIFEST = dict(
-    text="For C01: the real Forcefield.__init__ (DAT half) and get_params on rows whose residue/atom names and decimals are symbolic (layout strings), with arbitrary separators, comment/blank lines, optional group column and later duplicate rows: get_params returns exactly the row's numbers, non-numeric fields raise; the real apply_force_field with a force field answering symbolically (present/absent x arbitrary values per atom): hits carry exactly the returned numbers in model order, atoms without a complete entry stay unparameterised and unassigned (no defaulting or borrowing). Table lemmas: documented state naming, every written atom carries the DAT row of the names the force field resolves it to (independent DAT parse), formal charge per state, documented .names pattern semantics. Also: the same parameter-file path loaded twice with different contents (each load answers from its own file), and nucleotides keyed by their final state (ribo iff the written residue has O2', also after missing atoms were rebuilt; base and missing-atom pattern are selectors). Round 4: atom aliases of one .names section act in document order (renumbering chains), and a run with a MOL2 ligand neither writes nor assigns values to atoms of other hetero groups that have no force-field entry.",
+    text="For C01: the real Forcefield.__init__ (DAT half) and get_params on rows whose residue/atom names and decimals are symbolic (layout strings), with arbitrary separators, comment/blank lines, optional group column and later duplicate rows: get_params returns exactly the row's numbers, non-numeric fields raise; the real apply_force_field with a force field answering symbolically (present/absent x arbitrary values per atom): hits carry exactly the returned numbers in model order, atoms without a complete entry stay unparameterised and unassigned (no defaulting or borrowing). Table lemmas: documented state naming, every written atom carries the DAT row of the names the force field resolves it to (independent DAT parse), formal charge per state, documented .names pattern semantics. Also: the same parameter-file path loaded twice with different contents (each load answers from its own file), and nucleotides keyed by their final state (ribo iff the written residue has O2', also after missing atoms were rebuilt; base and missing-atom pattern are selectors). Round 4: atom aliases of one .names section act in document order (renumbering chains), and a run with a MOL2 ligand neither writes nor assigns values to atoms of other hetero groups that have no force-field entry. Round 5: (C-terminal cysteines and every other state keep the documented prefix - state-name table.)",
     note="Trusted: z3, symx layout strings (constant-hash dictionaries keyed by layout strings). Arbitrary user .names files are outside (expat/re on symbolic text); the built-in files are covered by the exhaustive table on template tripeptides.",
     technique="symbolic execution of real code on layout strings / symbolic force-field answers (symx) + SMT verdict per path; table lemmas",
     design="DESIGN.md section 3 C01",
